@@ -21,14 +21,14 @@ META = {
 
 @unit("C15", covers=[(ANA, "Analysis._create_xref"), (ANA, "StringAnalysis.add_xref_from"), (ANA, "ClassAnalysis.add_xref_new_instance"),
                      (ANA, "ClassAnalysis.add_xref_const_class"), (ANA, "MethodAnalysis.add_xref_new_instance"),
-                     (ANA, "MethodAnalysis.add_xref_const_class")], samples=256)
-def string_and_class_opcodes(U):
+                     (ANA, "MethodAnalysis.add_xref_const_class")], params=[{"dims": d} for d in (0, 1, 2, 3)], samples=256)
+def string_and_class_opcodes(U, dims):
     op = U.int("op", 0, 255)
     ana = U.mod(ANA)
     vms, index = X.make_world(S.SPLITS[0])
     vm = vms[0]
     mA = index["LA;"].methods[0]
-    vm.types.append("LB;")
+    vm.types.append("[" * dims + "LB;")
     vm.methods.append(("LB;", "m1", "()V"))
     vm.strings += ["s1", "s2"]
     vm.fields.append(("LA;", "f", "I"))
